@@ -83,6 +83,10 @@ def gen_base(rng):
             m = [int(rng.integers(n))]
         cmds.append({"op": name, "p": rand_params(rng, name), "m": m,
                      "dag": bool(name in GATES and rng.random() < 0.25)})
+    if rng.random() < 0.12:
+        cand = [c for c in cmds if c["op"] in ("Sgate", "Rgate", "Dgate", "Xgate", "Zgate", "Pgate", "CXgate", "CZgate", "S2gate")]
+        if cand:
+            cand[int(rng.integers(len(cand)))]["sym"] = True
     return {"n": n, "cmds": cmds}
 
 
@@ -218,7 +222,9 @@ class Ctx:
         import strawberryfields.program_utils as pu
         from .. import sfutil
 
-        self.sf, self.sfutil = sf, sfutil
+        from strawberryfields import ops
+
+        self.sf, self.sfutil, self.ops = sf, sfutil, ops
         self.rep = rep
         self.log = []
         # wrap Program.__eq__ and program_equivalence (module attribute and the alias bound in program.py)
@@ -244,21 +250,50 @@ class Ctx:
             program_mod.program_equivalence = pe
 
 
+SYM_VALUE = 0.37  # the value the free parameter "a" stands for when the harness interprets a template
+
+
+def build_symbolic(ctx, spec):
+    """Like sfutil.build_program, but the command marked "sym" gets the unbound free parameter `a` (times its numeric value /
+    SYM_VALUE, so that binding a = SYM_VALUE reproduces the numeric spec)."""
+    sf, ops = ctx.sf, ctx.ops
+    prog = sf.Program(spec["n"])
+    a = prog.params("a")
+    with prog.context as q:
+        for c in spec["cmds"]:
+            p = [jdec(x) for x in c["p"]]
+            if c.get("sym"):
+                p[0] = a * (p[0] / SYM_VALUE)
+            op = getattr(ops, c["op"])(*p)
+            if c.get("dag"):
+                op = op.H
+            regs = tuple(q[i] for i in c["m"])
+            op | (regs if len(regs) > 1 else regs[0])
+    return prog
+
+
 def run_case(case, rep, ctx):
     base, mut, kind = case["base"], case["mutant"], case["mutation"]
-    P = ctx.sfutil.build_program(base["n"], base["cmds"])
-    Q = ctx.sfutil.build_program(mut["n"], mut["cmds"])
+    symbolic = any(c.get("sym") for c in base["cmds"]) or any(c.get("sym") for c in mut["cmds"])
     n = max(base["n"], mut["n"])
     aP = rg.net_action(spec_tuples(base), n)
     aQ = rg.net_action(spec_tuples(mut), n)
-    # the harness also reads the programs back from the real Program objects (what == really saw)
-    tP = ctx.sfutil.circuit_tuples(P.circuit)
-    tQ = ctx.sfutil.circuit_tuples(Q.circuit)
-    aP2 = rg.net_action(tP, n)
-    aQ2 = rg.net_action(tQ, n)
-    if not (same_action(aP, aP2, 1e-9) and same_action(aQ, aQ2, 1e-9)):
-        rep.error("readback", RuntimeError("program read-back differs from its spec"))
-        return
+    if symbolic:
+        # templates: one gate parameter is the unbound free parameter `a`; a comparison that cannot evaluate it may raise
+        # (claims nothing), but a returned True is judged on the programs the templates stand for (a = SYM_VALUE)
+        P, Q = build_symbolic(ctx, base), build_symbolic(ctx, mut)
+        rep.observe("template-pair:" + kind)
+    else:
+        P = ctx.sfutil.build_program(base["n"], base["cmds"])
+        Q = ctx.sfutil.build_program(mut["n"], mut["cmds"])
+        # the harness also reads the programs back from the real Program objects (what == really saw)
+        tP = ctx.sfutil.circuit_tuples(P.circuit)
+        tQ = ctx.sfutil.circuit_tuples(Q.circuit)
+        aP2 = rg.net_action(tP, n)
+        aQ2 = rg.net_action(tQ, n)
+        if not (same_action(aP, aP2, 1e-9) and same_action(aQ, aQ2, 1e-9)):
+            rep.error("readback", RuntimeError("program read-back differs from its spec"))
+            return
     identical_semantics = same_action(aP, aQ) and base["n"] == mut["n"]
     rep.case([rnd(base, 5), kind, rnd(mut, 5)], kind != "identical",
              sample={"mutation": kind, "base": base, "mutant": mut} if rep.evaluations % 300 == 11 else None)
